@@ -47,6 +47,10 @@ def main():
         sys.stderr.seek(0); sys.stderr.truncate(0)
         res.append(run_both(case, f"v6s{idx}"))
     real_out.write(json.dumps(res))
+    real_out.flush()
+    # a worker thread the implementation failed to end (threads are not daemons) must not keep the driver alive
+    import os
+    os._exit(0)
 
 
 def run_both(case, name):
